@@ -66,6 +66,13 @@ class CtorHooks:
     def truthy(self, v):
         return None
 
+    def inline(self, fname):
+        """module-level helpers a constructor delegates to (validators are modelled by the call hook, which comes first)"""
+        if fname.isidentifier() and ("components", fname) in self.model.funcs and not fname.startswith("_check") and not fname.startswith("_get"):
+            from .core import inline_pure_aliases
+            return inline_pure_aliases(self.model.funcs[("components", fname)]), False
+        return None
+
     def table_params(self):
         """parameters of this constructor that may be given as a table: those tested with isinstance(p, dict)"""
         if not hasattr(self, "_tp"):
@@ -169,6 +176,8 @@ def ctor_paths(model, kind):
     if kind in cache:
         return cache[kind]
     owner, fn = model.method(kind, "__init__")
+    from .core import inline_pure_aliases
+    fn = inline_pure_aliases(fn)      # io_axis = eff["io"] ... len(io_axis): the idiom matcher reads one spelling
     hooks = CtorHooks(model, kind)
     sm = Summarizer(hooks, Ctx())
     try:
